@@ -32,7 +32,7 @@ m = dict(
     engines=[
         dict(name="V", path="tools/vrun.py", serves_properties=sorted(p for p in registry.PROPS if any(t["engine"] == "verus" for t in registry.PROPS[p]["tasks"])), kind_free_text="Verus on functions mechanically extracted from /repo on every run, contracts in contracts/*.vc"),
         dict(name="K", path="tools/krun.py", serves_properties=sorted(p for p in registry.PROPS if any(t["engine"] == "kani" for t in registry.PROPS[p]["tasks"])), kind_free_text="Kani/CBMC on the real crate in a scratch copy with injected cfg(kani) harness modules"),
-        dict(name="B", path="tools/brun.py", serves_properties=sorted(p for p in registry.PROPS if any(t["engine"] == "sql" for t in registry.PROPS[p]["tasks"])), kind_free_text="bounded exhaustive check of assumed SQL statement contracts on real SQLite (labelled bounded)"),
+        dict(name="B", path="tools/brun.py", serves_properties=sorted(p for p in registry.PROPS if any(t["engine"] == "sql" for t in registry.PROPS[p]["tasks"])), kind_free_text="bounded exhaustive checks of assumed contracts on the real code run natively (SQL statements on real SQLite; the HashMap glue of the DHCP option table; YAML route parsing): labelled bounded, never counted as proved"),
     ],
     checks=checks,
     notes=T.NOTES,
